@@ -9,7 +9,7 @@ SPEC = {
              "(typed option encoders with every sample of their generated argument domain: each struct field at its boundaries, vectors of length "
              "0,1,2,3,9), plus raw add_option (3 types x lengths 0/3/9) and remove_option (first / second option) on the option-carrying classes; "
              "depth 2 quick / 3 thorough with the sample set narrowing with depth (all, 2, 1); states deduplicated on the full getter snapshot x shadow "
-             "model. Further variants: IPv6 with add_header/search_header (data sizes 6, 7, 15, 22; also pre-loaded with three headers of different types), ICMP error messages carrying an RFC 4884 extension structure + quoted datagram + length octet, roots pre-loaded with raw options of which two consecutive ones exceed PDUOption's 8-byte inline buffer with different sizes, 300-byte blobs for the two formats with 16-bit option lengths (DHCPv6, PPPoE), and a BFS to fixpoint over RTP's CSRC / extension lists (add/remove with repeated identifiers, lists <= 3) against two plain lists. Before any edit: two default objects built over differently pre-filled memory have equal getters and equal serializations. On every transition: a rejected call leaves the object unchanged; getter after setter returns the argument (first matching option for "
+             "model. Further variants: IPv6 with add_header/search_header (data sizes 6, 7, 15, 22; also pre-loaded with three headers of different types), ICMP error messages carrying an RFC 4884 extension structure + quoted datagram + length octet, roots pre-loaded with raw options of which two consecutive ones exceed PDUOption's 8-byte inline buffer with different sizes, 300-byte blobs for the two formats with 16-bit option lengths (DHCPv6, PPPoE), an MLDv2 report pre-loaded with a record of 300 bytes of auxiliary data followed by a second record, and a BFS to fixpoint over RTP's CSRC / extension lists (add/remove with repeated identifiers, lists <= 3) against two plain lists. Before any edit: two default objects built over differently pre-filled memory have equal getters and equal serializations. On every transition: a rejected call leaves the object unchanged; getter after setter returns the argument (first matching option for "
              "additive setters); no unrelated getter moves; every earlier value is still returned; and in every state serialize() of the object parsed "
              "back by its own class gives the same getter snapshot except derived fields. distinct_nontrivial = states with a non-empty shadow model."),
     "claim": "Every setter of every class with every argument sample, and all ordered pairs (triples in thorough) of them, are executed against the shadow model and sent through the wire.",
